@@ -17,7 +17,7 @@ From Coq Require Import List Arith Permutation Floats ZArith QArith Qcanon.
 Require String.
 From TK Require Import Mat_Sums Mat_Core Mat_Qc Landmark_Model Landmark_Float Landmark_Spec
   Landmark_Proof_Trace Landmark_Proof_Euclid Landmark_Proof_Main Landmark_Proof_Ratio Landmark_Proof_Unique Landmark_Proof_Exec Landmark_Proof_Float
-  Landmark_Proof_Examples.
+  Landmark_Proof_Examples Landmark_Proof_Scale.
 Import ListNotations.
 Import String.StringSyntax.
 Local Open Scope nat_scope.
@@ -41,11 +41,11 @@ Proof. exact landmarks_prefix_nonvacuous. Qed.
 
 (* T2 the count is trunc(fl(N * ratio)) in binary64.  PARTIAL (finite sweep, bound in the
    statement): at the smallest ratio validate() accepts, fl(3.0/N), the count is 3 except for the
-   listed N, where it is 2.  Missing: the statement for all N (needs a rounding-error proof). *)
-Theorem ratio_bound_gives_three_partial : forall N : nat, 3 <= N < 1025 ->
+   170 listed N (47, 94, 147, ... 3064), where it is 2; bound 4097 = the largest N the harness accepts + 1.  Missing: the statement for all N (needs a rounding-error proof). *)
+Theorem ratio_bound_gives_three_partial : forall N : nat, 3 <= N < 4097 ->
   ratio_valid N (ratio_lower N) = true /\
-  ((~ In N short_list /\ n_landmarks_fl N (ratio_lower N) = Some 3%Z) \/
-   (In N short_list /\ n_landmarks_fl N (ratio_lower N) = Some 2%Z)).
+  ((~ In (Z.of_nat N) short_list /\ n_landmarks_fl N (ratio_lower N) = Some 3%Z) \/
+   (In (Z.of_nat N) short_list /\ n_landmarks_fl N (ratio_lower N) = Some 2%Z)).
 Proof. exact ratio_bound_gives_three_partial_lemma. Qed.
 Print Assumptions ratio_bound_gives_three_partial.
 
@@ -425,3 +425,96 @@ Theorem spec_same_upto_sign_b : forall N d tol Y Z,
     (forall a, a < N -> (lm_qabs (mof Y a c + mof Z a c) <= tol)%Qc).
 Proof. exact lm_same_upto_sign_b_sound. Qed.
 Print Assumptions spec_same_upto_sign_b.
+
+(* ---------------------------------------------------------------------------------------------
+   Wave 2: homogeneity.  "Reproduces all pairwise distances" for every Euclidean input includes
+   inputs at every length scale; the landmark code must therefore commute with a rescaling of the
+   data.  S1 holds over every field for ANY outcome `keep` of triangulate's null-eigenvalue
+   comparison that is the same in the two runs; S2 + S3 show that the comparison of the shipped
+   code (relative to the largest retained eigenvalue) has that invariance; S4 refutes it for a
+   comparison against a constant (seeded change C11_1: Eigen's dummy_precision). *)
+
+(* S1 data multiplied by t <> 0 (eigenvalues t^2 lam, sqrt values t s, same comparison outcomes,
+   kept eigenvalues non-zero): every row of the Landmark-MDS embedding is multiplied by t *)
+Theorem lmds_scale_equivariant : forall (F : Type) (Fo : FieldOps F) (Ff : IsField F)
+    (N d : nat) (keep keep' : nat -> bool) (lm : list nat) (dist W : mat F) (w s : vec F)
+    (ws : list (nat * vec F)) (t : F),
+  NoDup lm -> t <> 0%F ->
+  (forall c, c < d -> keep' c = keep c) ->
+  (forall c, c < d -> keep c = true -> sel_vals (length lm) d w c <> 0%F) ->
+  lmds_embed N d keep lm dist W w s = LOk ws ->
+  exists ws',
+    lmds_embed N d keep' lm (sc_mat t dist) W (sc_vec (t * t)%F w) (sc_vec t s) = LOk ws' /\
+    forall x, x < N ->
+      exists v v', last_write ws x = Some v /\ last_write ws' x = Some v' /\
+                   forall c, c < d -> v' c = (t * v c)%F.
+Proof. exact @lmds_scale_equivariant_lemma. Qed.
+Print Assumptions lmds_scale_equivariant.
+
+Example lmds_scale_equivariant_hyps_satisfiable :
+  NoDup ex_lm /\ qz 2 <> Q2Qc 0 /\
+  (forall c, c < 1 -> keep_all c = true -> sel_vals (length ex_lm) 1 ex_w c <> Q2Qc 0) /\
+  lmds_embed 6 1 keep_all ex_lm ex_dist ex_W ex_w ex_s = LOk ex_ws.
+Proof. exact lmds_scale_equivariant_nonvacuous. Qed.
+
+(* S2 the comparison  second(c) > second.cwiseAbs().maxCoeff() * n_landmarks * eps  (keep_rel,
+   exact rational arithmetic) does not change when every eigenvalue is multiplied by k > 0 *)
+Theorem keep_rel_scale_invariant : forall (L d : nat) (eps : Qc) (lam : vec Qc) (k : Qc) (c : nat),
+  (Q2Qc 0 < k)%Qc ->
+  keep_rel L d eps (fun j => (k * lam j)%Qc) c = keep_rel L d eps lam c.
+Proof. exact keep_rel_scale_lemma. Qed.
+Print Assumptions keep_rel_scale_invariant.
+
+(* S3 Landmark MDS with the shipped threshold is homogeneous of degree 1 in the data *)
+Theorem lmds_relative_threshold_scale_equivariant : forall (N d : nat) (eps : Qc) (lm : list nat)
+    (dist W : mat Qc) (w s : vec Qc) (ws : list (nat * vec Qc)) (t : Qc),
+  NoDup lm -> (Q2Qc 0 < t)%Qc -> (Q2Qc 0 <= eps)%Qc ->
+  let L := length lm in
+  lmds_embed N d (keep_rel L d eps (sel_vals L d w)) lm dist W w s = LOk ws ->
+  exists ws',
+    lmds_embed N d (keep_rel L d eps (sel_vals L d (sc_vec (t * t)%Qc w))) lm
+               (sc_mat t dist) W (sc_vec (t * t)%Qc w) (sc_vec t s) = LOk ws' /\
+    forall x, x < N ->
+      exists v v', last_write ws x = Some v /\ last_write ws' x = Some v' /\
+                   forall c, c < d -> v' c = (t * v c)%Qc.
+Proof. exact lmds_relative_threshold_scale_equivariant_lemma. Qed.
+Print Assumptions lmds_relative_threshold_scale_equivariant.
+
+Example lmds_relative_threshold_hyps_satisfiable :
+  NoDup ex_lm /\ (Q2Qc 0 < sx_t)%Qc /\ (Q2Qc 0 <= sx_eps)%Qc /\
+  (exists ws, lmds_embed 6 1 (keep_rel (length ex_lm) 1 sx_eps (sel_vals (length ex_lm) 1 ex_w))
+                         ex_lm ex_dist ex_W ex_w ex_s = LOk ws) /\
+  sx_row4 (lmds_embed 6 1 (keep_rel 4 1 sx_eps (sel_vals 4 1 (sc_vec (sx_t * sx_t)%Qc ex_w))) ex_lm
+                      (sc_mat sx_t ex_dist) ex_W (sc_vec (sx_t * sx_t)%Qc ex_w) (sc_vec sx_t ex_s))
+  = Some (3 # 100000000)%Q.
+Proof. exact lmds_relative_threshold_nonvacuous. Qed.
+
+(* S4 REFUTED for a constant threshold (triangulate with `second(c) > tau`): a configuration, a
+   factor t > 0 and a non-landmark sample whose coordinate on the scaled copy is not t times its
+   coordinate at unit scale (witness: tau = 10^-12, t = 10^-8, the sample lands on the origin) *)
+Theorem lmds_absolute_threshold_scale_refuted :
+  exists (N d : nat) (lm : list nat) (dist W : mat Qc) (w s : vec Qc) (t tau : Qc) ws ws',
+    NoDup lm /\ (Q2Qc 0 < t)%Qc /\
+    lmds_embed N d (keep_abs tau (sel_vals (length lm) d w)) lm dist W w s = LOk ws /\
+    lmds_embed N d (keep_abs tau (sel_vals (length lm) d (sc_vec (t * t)%Qc w))) lm
+               (sc_mat t dist) W (sc_vec (t * t)%Qc w) (sc_vec t s) = LOk ws' /\
+    exists x c v v', x < N /\ c < d /\
+      last_write ws x = Some v /\ last_write ws' x = Some v' /\ v' c <> (t * v c)%Qc.
+Proof. exact lmds_absolute_threshold_scale_refuted_lemma. Qed.
+Print Assumptions lmds_absolute_threshold_scale_refuted.
+
+(* S5 Landmark Isomap, dense branch: geodesics multiplied by t <> 0 (fourth roots of the selected
+   eigenvalues of B B^T by t): every coordinate is multiplied by t *)
+Theorem lisomap_scale_equivariant : forall (F : Type) (Fo : FieldOps F) (Ff : IsField F)
+    (N L d : nat) (G W : mat F) (w q : vec F) (Y : mat F) (t : F),
+  t <> 0%F -> (forall c, c < d -> q c <> 0%F) ->
+  lisomap_embed N L d G W w q = LOk Y ->
+  exists Y', lisomap_embed N L d (sc_mat t G) W (sc_vec (t * t * t * t)%F w) (sc_vec t q) = LOk Y' /\
+             forall j c, c < d -> Y' j c = (t * Y j c)%F.
+Proof. exact @lisomap_scale_equivariant_lemma. Qed.
+Print Assumptions lisomap_scale_equivariant.
+
+Example lisomap_scale_equivariant_hyps_satisfiable :
+  qz 2 <> Q2Qc 0 /\ (forall c, c < 1 -> ex_s c <> Q2Qc 0) /\
+  exists Y, lisomap_embed 4 4 1 ex4_G ex4_W ex4_w2 ex_s = LOk Y.
+Proof. exact lisomap_scale_equivariant_nonvacuous. Qed.
